@@ -35,6 +35,23 @@ type Result struct {
 // Vocab returns the vocabulary (canonical qualified name -> signature key). Read-only.
 func Vocab() map[string]string { return vocab }
 
+// MemberKey renders a struct field or interface method as "name:type" (methods: "method name:(params)(results)"
+// without parameter names).
+func MemberKey(name string, t types.Type, method bool) string {
+	q := func(p *types.Package) string { return p.Name() }
+	if sig, ok := t.(*types.Signature); ok && method {
+		var ps, rs []string
+		for i := 0; i < sig.Params().Len(); i++ {
+			ps = append(ps, types.TypeString(sig.Params().At(i).Type(), q))
+		}
+		for i := 0; i < sig.Results().Len(); i++ {
+			rs = append(rs, types.TypeString(sig.Results().At(i).Type(), q))
+		}
+		return "method " + name + ":(" + strings.Join(ps, ",") + ")(" + strings.Join(rs, ",") + ")"
+	}
+	return name + ":" + types.TypeString(t, q)
+}
+
 // Known reports whether a canonical qualified function name is in the vocabulary.
 func Known(name string) bool { _, ok := vocab[name]; return ok }
 
@@ -353,6 +370,17 @@ func lowerShortCircuits(p *load.Program, objs map[types.Object]string, src func(
 					}
 					break
 				}
+				// the call is (part of) a case expression of a tagless switch: turn the switch into nested ifs
+				if cc, isCC := stack[j].(*ast.CaseClause); isCC && j >= 2 {
+					if sw, isSw := stack[j-2].(*ast.SwitchStmt); isSw && sw.Tag == nil && sw.Init == nil && !done[sw] && j >= 3 && inStmtList(stack[j-3], sw) {
+						if txt, okL := lowerTaglessSwitch(sw, text); okL {
+							_ = cc
+							done[sw] = true
+							out = append(out, lowered{fset.Position(sw.Pos()).Filename, fset.Position(sw.Pos()).Offset, fset.Position(sw.End()).Offset, txt, qn})
+						}
+					}
+					return true
+				}
 				if outer == nil || j < 0 {
 					return true
 				}
@@ -460,6 +488,86 @@ func lowerShortCircuits(p *load.Program, objs map[types.Object]string, src func(
 		}
 	}
 	return out
+}
+
+// lowerTaglessSwitch renders `switch { case A: X; case B, C: Y; default: Z }` as
+// `if A { X } else { if B || C { Y } else { Z } }`. Refused if a body contains a break that would leave
+// the switch, a fallthrough, or if the default clause is not last.
+func lowerTaglessSwitch(sw *ast.SwitchStmt, text func(ast.Node) string) (string, bool) {
+	var clauses []*ast.CaseClause
+	for _, st := range sw.Body.List {
+		cc, ok := st.(*ast.CaseClause)
+		if !ok {
+			return "", false
+		}
+		clauses = append(clauses, cc)
+	}
+	for i, cc := range clauses {
+		if cc.List == nil && i != len(clauses)-1 {
+			return "", false
+		}
+		bad := false
+		var walk func(n ast.Node, depth int)
+		walk = func(n ast.Node, depth int) {
+			ast.Inspect(n, func(m ast.Node) bool {
+				switch x := m.(type) {
+				case *ast.FuncLit:
+					return false
+				case *ast.ForStmt, *ast.RangeStmt, *ast.SwitchStmt, *ast.TypeSwitchStmt, *ast.SelectStmt:
+					if m != n {
+						// a break inside belongs to that statement; a labelled one is fine either way
+						return false
+					}
+				case *ast.BranchStmt:
+					if x.Tok == token.FALLTHROUGH || (x.Tok == token.BREAK && x.Label == nil) {
+						bad = true
+					}
+				}
+				return true
+			})
+		}
+		for _, st := range cc.Body {
+			walk(st, 0)
+		}
+		if bad {
+			return "", false
+		}
+	}
+	var b strings.Builder
+	closers := 0
+	for i, cc := range clauses {
+		if cc.List == nil {
+			b.WriteString("{\n")
+			for _, st := range cc.Body {
+				b.WriteString(text(st) + "\n")
+			}
+			b.WriteString("}\n")
+			continue
+		}
+		var conds []string
+		for _, e := range cc.List {
+			conds = append(conds, "("+text(e)+")")
+		}
+		b.WriteString("if " + strings.Join(conds, " || ") + " {\n")
+		for _, st := range cc.Body {
+			b.WriteString(text(st) + "\n")
+		}
+		b.WriteString("}")
+		if i < len(clauses)-1 {
+			if clauses[i+1].List == nil {
+				b.WriteString(" else ")
+			} else {
+				b.WriteString(" else {\n")
+				closers++
+			}
+		} else {
+			b.WriteString("\n")
+		}
+	}
+	for i := 0; i < closers; i++ {
+		b.WriteString("}\n")
+	}
+	return b.String(), true
 }
 
 // calleeUnsafe returns why the function must not be inlined ("" if it may).
